@@ -140,6 +140,8 @@ def crate_source(defs, queries, values):
     lines.append("            let mut it = line.splitn(3, '\\t'); let ix: usize = it.next().unwrap().parse().unwrap(); let k: usize = it.next().unwrap().parse().unwrap(); let json = it.next().unwrap();")
     lines.append("            match ix {")
     for i, t in enumerate(queries):
+        if big_array(t):
+            continue     # serde has no impls for arrays of more than 32 elements: such queries are asked for their TS side only
         lines.append("                %d => d::<%s>(ix, k, json)," % (i, C.rust_ty(t)))
         owner[len(lines)] = ("q", i)
     lines.append("                _ => (),")
@@ -193,6 +195,16 @@ def crate_source(defs, queries, values):
             owner[len(lines)] = ("v", i, k)
     lines.append("}")
     return "\n".join(lines) + "\n", owner
+
+
+def big_array(t):
+    if t[0] == "array" and t[1] > 32:
+        return True
+    for x in t[1:]:
+        for y in (x if isinstance(x, list) else [x]):
+            if isinstance(y, tuple) and big_array(y):
+                return True
+    return False
 
 
 def build(name, defs, queries, values, max_rounds=12, log=None):
